@@ -58,7 +58,7 @@ func famFull(depth int) SeqModel {
 // compaction with meta-data: timed view
 func famCompact(depth int) SeqModel {
 	return SeqModel{Name: "compact", MaxTasks: 1, MaxEpics: 2, Depth: depth,
-		Agents: []string{"a1", "a2"}, CmdNames: []string{"new_task", "new_epic", "set", "claim", "compact"},
+		Agents: []string{"a1", "a2"}, CmdNames: []string{"new_task", "new_epic", "set", "claim", "compact", "prune"},
 		StateArgs: []string{"todo", "done", "doing"}, ClaimArgs: []string{},
 		Extras: []string{"set_epic", "text", "results"}, ViewMode: "timed"}
 }
@@ -149,13 +149,13 @@ func init() {
 	}
 	registry["C20"] = func() Check {
 		return &SeqCheck{Prop: "C20",
-			Ideal: famResults(4), IdealDeep: famResults(5), IdealProps: []string{"P_C20"},
+			Ideal: famResults(4), IdealDeep: famResults(5), IdealProps: []string{"P_C20"}, Probes: probeCompact,
 			GenQuick: famResults(3), GenThorough: famResults(5), SampleQuick: 100,
 			Sim: famResults(10), SimNumQuick: 60, SimNumThorough: 1500}
 	}
 	registry["C05"] = func() Check {
 		return &SeqCheck{Prop: "C05",
-			Ideal: famCompact(5), IdealDeep: famCompact(7), IdealProps: []string{"P_C05"},
+			Ideal: famCompact(5), IdealDeep: famCompact(7), IdealProps: []string{"P_C05"}, Probes: probeCompact,
 			GenQuick: famCompact(4), GenThorough: famCompact(6), SampleQuick: 150,
 			// (random crafted stores are NOT used here: C05 quantifies over histories ergo can
 			// produce plus legacy logs; a hand-made "canceled but claimed" item does lose its
